@@ -32,7 +32,7 @@ def tokensOf (j : Json) : Except String (List Token) := do
 def passes : List (String × (Text → Text)) :=
   [("first_comments", suppressFirstComments),
    ("double_braces", doubleBraces),
-   ("sys_path", suppressSysPath), ("tabs", expandTabs),
+   ("tabs", expandTabs),
    ("blank_lines", suppressBlankLines), ("useless_pass", suppressUselessPass),
    ("strip", strip), ("finish", finish),
    ("normalize", fun t => (normalizeComment t).1)]
@@ -64,20 +64,59 @@ def rangesOf (j : Json) : Except String (Option (List IfStmt)) :=
       | _ => throw "range must be [lineno, end_lineno, isGuard]"
     pure (some rs)
 
-/-- `c13.model.guard`: `cases` = list of `{text, ifs, ifs1}`; answers `[suppress_main_guard(text) with
-oracle ifs, preprocess(text) with oracle ifs1 (asked about the text after suppress_first_comments),
-RangesOk 0 ifs, keepOutsideGuards spec]`. -/
+/-- The statement oracle of `suppress_sys_path_injection` as sent by the harness: `null`, or a list of
+`[lineno, end_lineno, col_offset == 0]` for ALL the top-level statements. -/
+def stmtsOf (j : Json) : Except String (Option (List Stmt)) :=
+  match j with
+  | Json.null => pure none
+  | _ => do
+    let a ← j.getArr?
+    let rs ← a.toList.mapM fun x => do
+      let l ← intList x
+      match l with
+      | [p, q, c] => pure (⟨p.toNat, q.toNat, c != 0⟩ : Stmt)
+      | _ => throw "statement must be [lineno, end_lineno, col0]"
+    pure (some rs)
+
+/-- `RangesOk` as a Bool (what the theorem `C13_injection_statements` / `C13_main_guard` assumes of the
+parser's answer). -/
+def rangesOkB : (pos n : Nat) → List IfStmt → Bool
+  | _, _, [] => true
+  | pos, n, r :: rest =>
+    decide (pos < r.lineno) && decide (r.lineno ≤ r.endLineno) && decide (r.endLineno ≤ pos + n) &&
+      rangesOkB r.endLineno (n - (r.endLineno - pos)) rest
+
+/-- `c13.model.sys_path`: `cases` = list of `{text, stmts}`; answers `model` = suppress_sys_path_injection
+with the oracle `stmts`, `spec` = the lines outside the injection statements (`keepOutsideGuards` on
+`injectionMarks`), `rangesOk` = the hypothesis of the theorem holds for this oracle answer. -/
+def modelSysPath : Handler := fun j => do
+  let cs ← getArr j "cases"
+  let rs ← cs.toList.mapM fun c => do
+    let t := (← c.getObjValAs? String "text").toList
+    let ss ← stmtsOf (c.getObjValD "stmts")
+    let ls := splitNl t
+    let (spec, ok) := match ss with
+      | some ss => (joinNl (Spec.keepOutsideGuards 0 ls (Spec.injectionMarks ls ss)),
+                    rangesOkB 0 ls.length (Spec.injectionMarks ls ss))
+      | none => (t, true)
+    pure (Json.mkObj [("model", txt (suppressSysPath ss t)), ("spec", txt spec), ("rangesOk", Json.bool ok)])
+  pure (Json.mkObj [("r", Json.arr rs.toArray)])
+
+/-- `c13.model.guard`: `cases` = list of `{text, ifs, ifs1, stmts2}`; answers `[suppress_main_guard(text)
+with oracle ifs, preprocess(text) with oracles ifs1 (asked about the text after suppress_first_comments)
+and stmts2 (all the top-level statements of the text after suppress_main_guard), keepOutsideGuards spec]`. -/
 def modelGuard : Handler := fun j => do
   let cs ← getArr j "cases"
   let rs ← cs.toList.mapM fun c => do
     let t := (← c.getObjValAs? String "text").toList
     let ifs ← rangesOf (c.getObjValD "ifs")
     let ifs1 ← rangesOf (c.getObjValD "ifs1")
+    let stmts2 ← stmtsOf (c.getObjValD "stmts2")
     let spec := match ifs with
       | some rs => joinNl (Spec.keepOutsideGuards 0 (splitNl t) rs)
       | none => t
     pure (Json.mkObj [("guard", txt (suppressMainGuard ifs t)),
-      ("preprocess", txt (preprocess (fun _ => ifs1) t)),
+      ("preprocess", txt (preprocess (fun _ => ifs1) (fun _ => stmts2) t)),
       ("first_comments", txt (suppressFirstComments t)), ("spec", txt spec)])
   pure (Json.mkObj [("r", Json.arr rs.toArray)])
 
@@ -135,6 +174,7 @@ def specText : Handler := fun j => do
 
 def handlers : List (String × Handler) :=
   [("c13.model.pass", modelPass), ("c13.model.loop", modelLoop), ("c13.model.guard", modelGuard),
+   ("c13.model.sys_path", modelSysPath),
    ("c13.spec.loop", specLoop), ("c13.spec.text", specText)]
 
 end Driver.C13
